@@ -88,10 +88,48 @@ type Audit struct {
 	N     int
 }
 
+// Region / Contact: a relation reached through an embedded struct.
+type Region struct {
+	ID   uint `gorm:"primaryKey"`
+	Name string
+}
+
+type Contact struct {
+	Phone    string
+	RegionID *uint
+	Region   *Region
+}
+
+// OwnerTag is the join model some cases register with SetupJoinTable (same
+// columns as the default join table); its hook issues a statement too.
+type OwnerTag struct {
+	OwnerID uint `gorm:"primaryKey"`
+	TagID   uint `gorm:"primaryKey"`
+}
+
+func (j *OwnerTag) BeforeCreate(tx *gorm.DB) error { return fire(tx, "BeforeCreate") }
+
+// Gadget / AuditV2: what the migration operations create or extend.
+type Gadget struct {
+	ID      uint   `gorm:"primaryKey"`
+	Name    string `gorm:"index"`
+	OwnerID uint
+}
+
+type AuditV2 struct {
+	ID    uint `gorm:"primaryKey"`
+	Point string
+	N     int
+	Extra string
+}
+
+func (AuditV2) TableName() string { return "audits" }
+
 type Owner struct {
 	ID        uint `gorm:"primaryKey"`
 	Name      string
 	Age       int
+	Contact   Contact `gorm:"embedded;embeddedPrefix:contact_"`
 	CompanyID *uint
 	Company   *Company
 	Profile   *Profile
@@ -148,9 +186,9 @@ func (i *Item) AfterDelete(tx *gorm.DB) error   { return fire(tx, "AfterDelete")
 
 // ---- schema and seed data (raw SQL, outside gorm, before Rec.Reset) ------------------------------------
 
-var allModels = []interface{}{&Company{}, &Office{}, &Owner{}, &Profile{}, &Item{}, &Part{}, &Tag{}, &Note{}, &Audit{}}
+var allModels = []interface{}{&Region{}, &Company{}, &Office{}, &Owner{}, &Profile{}, &Item{}, &Part{}, &Tag{}, &Note{}, &Audit{}}
 
-var tables = []string{"owner_tags", "notes", "parts", "items", "profiles", "offices", "owners", "companies", "tags", "audits"}
+var tables = []string{"owner_tags", "notes", "parts", "items", "profiles", "offices", "owners", "companies", "tags", "audits", "regions"}
 
 var (
 	ddlOnce sync.Once
@@ -179,9 +217,10 @@ func schemaDDL() string {
 }
 
 const seedSQL = `
+INSERT INTO regions (id, name) VALUES (1,'north'),(2,'south');
 INSERT INTO companies (id, name) VALUES (1,'acme'),(2,'bolt');
 INSERT INTO offices (id, company_id, city) VALUES (1,1,'oslo'),(2,1,'rome'),(3,2,'kyiv');
-INSERT INTO owners (id, name, age, company_id) VALUES (1,'ann',31,1),(2,'bob',42,2),(3,'cy',23,NULL),(4,'dee',54,1),(5,'eve',35,NULL);
+INSERT INTO owners (id, name, age, company_id, contact_phone, contact_region_id) VALUES (1,'ann',31,1,'111',1),(2,'bob',42,2,'222',2),(3,'cy',23,NULL,'',NULL),(4,'dee',54,1,'444',1),(5,'eve',35,NULL,'',NULL);
 INSERT INTO profiles (id, owner_id, bio) VALUES (1,1,'p1'),(2,2,'p2'),(3,4,'p4');
 INSERT INTO items (id, owner_id, label, deleted_at) VALUES (1,1,'i1',NULL),(2,1,'i2',NULL),(3,2,'i3',NULL),(4,4,'i4',NULL),(5,4,'i5',NULL),(6,4,'i6',NULL);
 INSERT INTO parts (id, item_id, name) VALUES (1,1,'a'),(2,1,'b'),(3,3,'c'),(4,5,'d');
@@ -196,6 +235,7 @@ func reseed(d *testdb.DB) error {
 	for _, t := range tables {
 		sb.WriteString("DELETE FROM " + t + ";\n")
 	}
+	sb.WriteString("DROP TABLE IF EXISTS gadgets;\n")
 	sb.WriteString("DELETE FROM sqlite_sequence;\n")
 	sb.WriteString(seedSQL)
 	_, err := d.SQL.Exec(sb.String())
@@ -204,11 +244,30 @@ func reseed(d *testdb.DB) error {
 
 func openDB(c Case) (*testdb.DB, error) {
 	now := testdb.FixedNow
-	d := testdb.Open(testdb.Options{Config: gorm.Config{
-		PrepareStmt:            c.Prepare == "config",
-		SkipDefaultTransaction: c.SkipTx,
-		NowFunc:                func() time.Time { return now },
+	d := testdb.Open(testdb.Options{NoReturning: c.NoReturning, Config: gorm.Config{
+		PrepareStmt:              c.Prepare == "config",
+		SkipDefaultTransaction:   c.SkipTx,
+		DisableNestedTransaction: c.Cfg == "no-nested-tx",
+		FullSaveAssociations:     c.Cfg == "full-save",
+		TranslateError:           c.Cfg == "translate-error",
+		QueryFields:              c.Cfg == "query-fields",
+		NowFunc:                  func() time.Time { return now },
 	}})
+	if c.Cfg == "create-batch-size" {
+		d.DB.Config.CreateBatchSize = 2
+	}
+	if c.JoinModel {
+		if err := d.DB.SetupJoinTable(&Owner{}, "Tags", &OwnerTag{}); err != nil {
+			d.Close()
+			return nil, fmt.Errorf("setup join table: %w", err)
+		}
+	}
+	if c.Plugin {
+		if err := registerPlugin(d.DB); err != nil {
+			d.Close()
+			return nil, fmt.Errorf("plugin: %w", err)
+		}
+	}
 	if _, err := d.SQL.Exec(schemaDDL()); err != nil {
 		d.Close()
 		return nil, fmt.Errorf("ddl: %w", err)
@@ -218,6 +277,31 @@ func openDB(c Case) (*testdb.DB, error) {
 		return nil, fmt.Errorf("seed: %w", err)
 	}
 	return d, nil
+}
+
+// registerPlugin adds callbacks the way a plugin does: after the main statement of
+// the create / update / delete / query pipelines it issues one more statement
+// through a session of the handle the pipeline runs on.
+func registerPlugin(db *gorm.DB) error {
+	bump := func(tx *gorm.DB) {
+		if tx.Error != nil || tx.DryRun {
+			return
+		}
+		if tx.Statement.Table == "audits" {
+			return // the plugin's own bookkeeping table
+		}
+		tx.AddError(tx.Session(&gorm.Session{NewDB: true}).Exec("UPDATE audits SET n = n + 1 WHERE id = ?", 1).Error)
+	}
+	if err := db.Callback().Create().After("gorm:create").Register("c18:after_create", bump); err != nil {
+		return err
+	}
+	if err := db.Callback().Update().After("gorm:update").Register("c18:after_update", bump); err != nil {
+		return err
+	}
+	if err := db.Callback().Delete().After("gorm:delete").Register("c18:after_delete", bump); err != nil {
+		return err
+	}
+	return db.Callback().Query().After("gorm:query").Register("c18:after_query", bump)
 }
 
 // ---- the case -------------------------------------------------------------------------------------
@@ -261,6 +345,12 @@ type Op struct {
 	Attrs    bool      `json:"attrs,omitempty"`
 	Assign   bool      `json:"assign,omitempty"`
 	Form     string    `json:"form,omitempty"`
+	Ret      bool      `json:"returning,omitempty"` // Clauses(clause.Returning{}) on update / delete
+	Scoped   bool      `json:"scoped,omitempty"`    // the condition is added through Scopes
+	Sub      string    `json:"sub,omitempty"`       // a handle passed as argument (sub-query): same | foreign (bound to another context)
+	InnerJ   bool      `json:"innerjoins,omitempty"`
+	JoinCond bool      `json:"joincond,omitempty"` // Joins("Company", handle.Where(..))
+	Limit    int       `json:"limit,omitempty"`
 }
 
 // Fork: a child handle is derived from the program's handle with any mix of
@@ -294,6 +384,13 @@ type Case struct {
 	Hook        string `json:"hook,omitempty"`
 	HookAt      string `json:"hookat,omitempty"`
 	Fork        *Fork  `json:"fork,omitempty"`
+	NoReturning bool   `json:"noreturning,omitempty"` // dialector without RETURNING: inserts go through ExecContext
+	Cfg         string `json:"cfg,omitempty"`         // one more Config switch: no-nested-tx | full-save | translate-error | query-fields | create-batch-size
+	Plugin      bool   `json:"plugin,omitempty"`      // registered callbacks issue a statement through a session of the pipeline's handle
+	JoinModel   bool   `json:"joinmodel,omitempty"`   // SetupJoinTable(&Owner{}, "Tags", &OwnerTag{}) with a hook on the join model
+	TxOpts      bool   `json:"txopts,omitempty"`      // Begin / Transaction get explicit *sql.TxOptions
+	Panic       []bool `json:"panic,omitempty"`       // per level: the failing block panics instead of returning the error
+	Savepoint   string `json:"savepoint,omitempty"`   // manual transaction: explicit SavePoint around the inner part: keep | rollback
 	Ops         []Op   `json:"ops"`
 }
 
@@ -408,6 +505,15 @@ func assocDest(name string) interface{} {
 
 // ---- executing one operation on a handle ---------------------------------------------------------------
 
+// subHandle is the handle a sub-query / join condition is built from: the
+// program's own, or one bound to another context (its context must not win).
+func subHandle(h *gorm.DB, kind string) *gorm.DB {
+	if kind == "foreign" && foreignDB != nil {
+		return foreignDB
+	}
+	return h.Session(&gorm.Session{NewDB: true})
+}
+
 func withPreloads(tx *gorm.DB, ps []Preload) *gorm.DB {
 	for _, p := range ps {
 		switch p.Cond {
@@ -436,9 +542,30 @@ func execOp(h *gorm.DB, o Op) error {
 		if o.Upsert {
 			tx = tx.Clauses(clause.OnConflict{UpdateAll: true})
 		}
+		switch o.Form {
+		case "select":
+			tx = tx.Select("Name", "Age", "Items", "Company")
+		case "omit":
+			tx = tx.Omit("Tags", "Notes")
+		case "omit-associations":
+			tx = tx.Omit(clause.Associations)
+		}
 		return tx.Create(&ow).Error
+	case "create-map":
+		if o.Form == "maps" {
+			// (a non-pointer []map fails to scan the RETURNING column back: outside this property, reported to the lead)
+			return h.Model(&Owner{}).Create(&[]map[string]interface{}{{"Name": "m1", "Age": 11}, {"Name": "m2", "Age": 12}}).Error
+		}
+		return h.Model(&Owner{}).Create(map[string]interface{}{"Name": "m0", "Age": 10}).Error
 	case "create-slice":
 		ows := ownersOf(o, o.IDs)
+		if o.Form == "pointers" {
+			ptrs := make([]*Owner, len(ows))
+			for i := range ows {
+				ptrs[i] = &ows[i]
+			}
+			return full(h).Create(&ptrs).Error
+		}
 		if o.Batch > 0 {
 			return full(h).Session(&gorm.Session{CreateBatchSize: o.Batch}).Create(&ows).Error
 		}
@@ -452,8 +579,33 @@ func execOp(h *gorm.DB, o Op) error {
 	case "update-model":
 		ow := ownersOf(o, []int{o.ID})[0]
 		return full(h).Model(&ow).Update("name", "renamed").Error
+	case "update-form":
+		ow := Owner{ID: uint(o.ID)}
+		switch o.Form {
+		case "map":
+			return h.Model(&ow).Updates(map[string]interface{}{"name": "mapped", "age": 44}).Error
+		case "map-belongs-to":
+			return h.Model(&ow).Updates(map[string]interface{}{"name": "mapped", "Company": &Company{Name: "mapco"}}).Error
+		case "update-column":
+			return h.Model(&ow).UpdateColumn("age", 45).Error
+		case "update-columns":
+			return h.Model(&ow).UpdateColumns(Owner{Name: "cols", Age: 46}).Error
+		case "select-star":
+			return h.Model(&ow).Select("*").Omit("ID").Updates(Owner{Name: "star", Age: 47}).Error
+		}
+		return fmt.Errorf("harness: unknown update form %q", o.Form)
 	case "update-where":
-		return h.Model(&Owner{}).Where("id IN ?", o.IDs).Update("age", 77).Error
+		tx := h.Model(&Owner{})
+		var ret []Owner
+		if o.Ret {
+			tx = h.Model(&ret).Clauses(clause.Returning{})
+		}
+		if o.Scoped {
+			tx = tx.Scopes(func(d *gorm.DB) *gorm.DB { return d.Where("id IN ?", o.IDs) })
+		} else {
+			tx = tx.Where("id IN ?", o.IDs)
+		}
+		return tx.Update("age", 77).Error
 	case "save":
 		ow := ownersOf(o, []int{o.ID})[0]
 		return full(h).Save(&ow).Error
@@ -461,7 +613,21 @@ func execOp(h *gorm.DB, o Op) error {
 		ows := ownersOf(o, o.IDs)
 		return full(h).Save(&ows).Error
 	case "delete":
-		return h.Delete(&Owner{ID: uint(o.ID)}).Error
+		tx := h
+		var ret []Owner
+		if o.Ret {
+			tx = tx.Clauses(clause.Returning{})
+		}
+		switch o.Form {
+		case "ids":
+			return tx.Delete(&Owner{}, o.IDs).Error
+		case "where":
+			if o.Ret {
+				return tx.Where("id IN ?", o.IDs).Delete(&ret).Error
+			}
+			return tx.Where("id IN ?", o.IDs).Delete(&Owner{}).Error
+		}
+		return tx.Delete(&Owner{ID: uint(o.ID)}).Error
 	case "delete-assoc":
 		var tx *gorm.DB
 		if len(o.Sel) == 1 {
@@ -484,12 +650,26 @@ func execOp(h *gorm.DB, o Op) error {
 	case "find":
 		var ows []Owner
 		tx := h
-		for _, j := range o.Joins {
-			tx = tx.Joins(j)
+		for i, j := range o.Joins {
+			switch {
+			case o.JoinCond && i == 0 && j == "Company":
+				tx = tx.Joins(j, subHandle(h, "foreign").Where("name <> ?", "zz"))
+			case o.InnerJ:
+				tx = tx.InnerJoins(j)
+			default:
+				tx = tx.Joins(j)
+			}
 		}
 		tx = withPreloads(tx, o.Preloads)
 		if o.Age > 0 {
-			tx = tx.Where("owners.age > ?", o.Age)
+			if o.Scoped {
+				tx = tx.Scopes(func(d *gorm.DB) *gorm.DB { return d.Where("owners.age > ?", o.Age) })
+			} else {
+				tx = tx.Where("owners.age > ?", o.Age)
+			}
+		}
+		if o.Sub != "" {
+			tx = tx.Where("owners.id IN (?)", subHandle(h, o.Sub).Model(&Item{}).Select("owner_id"))
 		}
 		return tx.Find(&ows).Error
 	case "first", "take", "last":
@@ -546,6 +726,9 @@ func execOp(h *gorm.DB, o Op) error {
 		if o.Age > 0 {
 			tx = tx.Where("age > ?", o.Age)
 		}
+		if o.Limit > 0 {
+			tx = tx.Limit(o.Limit)
+		}
 		return tx.FindInBatches(&ows, o.Batch, func(btx *gorm.DB, batch int) error {
 			switch o.Inner {
 			case "count":
@@ -590,12 +773,24 @@ func execOp(h *gorm.DB, o Op) error {
 			Name string
 			Age  int
 		}
-		if o.Form == "table" {
+		switch o.Form {
+		case "table":
 			return h.Table("owners").Select("name", "age").Where("age > ?", o.Age).Scan(&res).Error
+		case "find-maps":
+			var ms []map[string]interface{}
+			return h.Model(&Owner{}).Where("age > ?", o.Age).Find(&ms).Error
+		case "take-map":
+			m := map[string]interface{}{}
+			return h.Model(&Owner{}).Where("age > ?", 1).Take(&m).Error
+		case "sub-table":
+			return h.Table("(?) as u", subHandle(h, "foreign").Model(&Owner{}).Select("name", "age")).Where("age > ?", o.Age).Scan(&res).Error
 		}
 		return h.Model(&Owner{}).Select("name", "age").Where("age > ?", o.Age).Scan(&res).Error
 	case "pluck":
 		var names []string
+		if o.Form == "distinct" {
+			return h.Model(&Owner{}).Distinct().Where("age > ?", o.Age).Pluck("name", &names).Error
+		}
 		return h.Model(&Owner{}).Where("age > ?", o.Age).Pluck("name", &names).Error
 	case "count":
 		var n int64
@@ -603,7 +798,47 @@ func execOp(h *gorm.DB, o Op) error {
 		for _, j := range o.Joins {
 			tx = tx.Joins(j)
 		}
+		switch o.Form {
+		case "group":
+			tx = tx.Group("owners.company_id")
+		case "distinct":
+			tx = tx.Distinct("owners.name")
+		}
+		if o.Scoped {
+			return tx.Scopes(func(d *gorm.DB) *gorm.DB { return d.Where("owners.age > ?", o.Age) }).Count(&n).Error
+		}
 		return tx.Where("owners.age > ?", o.Age).Count(&n).Error
+	case "count-find":
+		// one chain value finished twice (made reusable with Session, as the documentation asks)
+		var n int64
+		var ows []Owner
+		q := withPreloads(h.Model(&Owner{}).Where("age > ?", o.Age), o.Preloads).Session(&gorm.Session{})
+		if err := q.Count(&n).Error; err != nil {
+			return err
+		}
+		return q.Limit(2).Offset(1).Find(&ows).Error
+	case "connection":
+		return h.Connection(func(tx *gorm.DB) error {
+			var ow Owner
+			if err := withPreloads(tx, o.Preloads).First(&ow, o.ID).Error; err != nil {
+				return err
+			}
+			return tx.Create(&Audit{Point: "connection"}).Error
+		})
+	case "migrate":
+		switch o.Form {
+		case "auto-new-table":
+			return h.AutoMigrate(&Gadget{})
+		case "auto-add-column":
+			return h.AutoMigrate(&AuditV2{})
+		case "create-drop":
+			m := h.Migrator()
+			if err := m.CreateTable(&Gadget{}); err != nil {
+				return err
+			}
+			return m.DropTable(&Gadget{})
+		}
+		return fmt.Errorf("harness: unknown migrate form %q", o.Form)
 	case "firstorcreate", "firstorinit":
 		name := "nobody"
 		if o.Found {
@@ -611,6 +846,13 @@ func execOp(h *gorm.DB, o Op) error {
 		}
 		var ow Owner
 		tx := h.Where(Owner{Name: name})
+		var conds []interface{}
+		switch o.Form {
+		case "model":
+			tx = h.Model(&Owner{}).Where(Owner{Name: name})
+		case "conds":
+			tx, conds = h, []interface{}{Owner{Name: name}}
+		}
 		if o.Attrs {
 			tx = tx.Attrs(Owner{Age: 61})
 		}
@@ -618,13 +860,27 @@ func execOp(h *gorm.DB, o Op) error {
 			tx = tx.Assign(Owner{Age: 62})
 		}
 		if o.Kind == "firstorinit" {
-			return tx.FirstOrInit(&ow).Error
+			return tx.FirstOrInit(&ow, conds...).Error
 		}
-		return tx.FirstOrCreate(&ow).Error
+		return tx.FirstOrCreate(&ow, conds...).Error
 	case "raw":
 		var res []struct {
 			ID   uint
 			Name string
+		}
+		switch o.Form {
+		case "rows":
+			rows, err := h.Raw("SELECT id, name FROM owners WHERE age > ?", o.Age).Rows()
+			if err != nil {
+				return err
+			}
+			defer rows.Close()
+			for rows.Next() {
+			}
+			return rows.Err()
+		case "row":
+			var n int64
+			return h.Raw("SELECT count(*) FROM owners WHERE age > ?", o.Age).Row().Scan(&n)
 		}
 		return h.Raw("SELECT id, name FROM owners WHERE age > ?", o.Age).Scan(&res).Error
 	case "exec":
@@ -654,6 +910,11 @@ func bind(root *gorm.DB, c Case, ctx context.Context, other context.Context) *go
 		} else {
 			db = db.Session(&gorm.Session{Context: ctx})
 		}
+	case "session-initialized":
+		// an initialized session is a ready instance (like the value a chain method returns): used for one operation
+		db = db.Session(&gorm.Session{Context: ctx, Initialized: true})
+	case "session-initialized-newdb":
+		db = db.Session(&gorm.Session{Context: ctx, Initialized: true, NewDB: true})
 	}
 	if c.Prepare == "session-after" {
 		db = db.Session(&gorm.Session{PrepareStmt: true})
@@ -663,9 +924,21 @@ func bind(root *gorm.DB, c Case, ctx context.Context, other context.Context) *go
 		db = db.Session(&gorm.Session{})
 	case "newdb":
 		db = db.Session(&gorm.Session{NewDB: true})
+	case "skiphooks":
+		db = db.Session(&gorm.Session{SkipHooks: true})
+	case "skip-default-tx":
+		db = db.Session(&gorm.Session{SkipDefaultTransaction: true})
+	case "no-nested-tx":
+		db = db.Session(&gorm.Session{DisableNestedTransaction: true})
+	case "allow-global-update+query-fields":
+		db = db.Session(&gorm.Session{AllowGlobalUpdate: true, QueryFields: true})
 	}
 	return db
 }
+
+// foreignDB is a handle bound to the "other" context: passed as an argument
+// (sub-query, join condition) of chains that run on the program's handle.
+var foreignDB *gorm.DB
 
 // fk is the fork state of the running half (cases run one at a time).
 var fk struct {
@@ -750,6 +1023,7 @@ func runLevel(h *gorm.DB, c Case, lvl int) error {
 	if lvl == c.Depth {
 		return runOps(h, c)
 	}
+	panics := lvl < len(c.Panic) && c.Panic[lvl]
 	body := func(tx *gorm.DB) error {
 		if err := runLevel(tx, c, lvl+1); err != nil && !errors.Is(err, errBlock) {
 			return err
@@ -760,22 +1034,62 @@ func runLevel(h *gorm.DB, c Case, lvl int) error {
 			}
 		}
 		if c.Fail[lvl] {
+			if panics {
+				panic(errBlock)
+			}
 			return errBlock
 		}
 		return nil
 	}
+	var opts []*sql.TxOptions
+	if c.TxOpts && lvl == 0 {
+		opts = []*sql.TxOptions{{Isolation: sql.LevelDefault}}
+	}
 	if c.Tx == "manual" && lvl == 0 {
-		tx := h.Begin()
+		tx := h.Begin(opts...)
 		if tx.Error != nil {
 			return tx.Error
 		}
-		if err := body(tx); err != nil {
+		inner := func() error {
+			if c.Savepoint == "" {
+				return body(tx)
+			}
+			if err := tx.SavePoint("c18_sp").Error; err != nil {
+				return err
+			}
+			err := body(tx)
+			if err != nil && !errors.Is(err, errBlock) {
+				return err
+			}
+			if c.Savepoint == "rollback" {
+				if err := tx.RollbackTo("c18_sp").Error; err != nil {
+					return err
+				}
+			}
+			return err
+		}
+		if err := inner(); err != nil {
 			tx.Rollback()
 			return err
 		}
 		return tx.Commit().Error
 	}
-	return h.Transaction(body)
+	if !panics {
+		return h.Transaction(body, opts...)
+	}
+	// the block panics: Transaction rolls back (to the save point) and re-panics; the caller recovers
+	return func() (err error) {
+		defer func() {
+			if r := recover(); r != nil {
+				if e, ok := r.(error); ok && errors.Is(e, errBlock) {
+					err = errBlock
+					return
+				}
+				panic(r)
+			}
+		}()
+		return h.Transaction(body, opts...)
+	}()
 }
 
 // errPanic wraps a panic raised inside gorm / database/sql while the program ran.
@@ -788,7 +1102,9 @@ func (e errPanic) Error() string { return fmt.Sprintf("panic: %v", e.v) }
 // error and the spans of driver events made by the child.
 func runProgram(d *testdb.DB, c Case, ctx, other, child context.Context) (err error, spans []span) {
 	fk.rec, fk.ctx, fk.spans = d.Rec, child, nil
+	foreignDB = d.DB.WithContext(other)
 	defer func() {
+		foreignDB = nil
 		if r := recover(); r != nil {
 			err = errPanic{r}
 		}
@@ -869,7 +1185,7 @@ func genGraph(rt *rapid.T, label string) Graph {
 	return g
 }
 
-var preloadPaths = []string{"Company", "Profile", "Items", "Tags", "Notes", "Items.Parts", "Company.Offices", clause.Associations}
+var preloadPaths = []string{"Company", "Profile", "Items", "Tags", "Notes", "Items.Parts", "Company.Offices", clause.Associations, "Contact.Region"}
 
 func genPreloads(rt *rapid.T, min int) []Preload {
 	n := rapid.IntRange(min, 3).Draw(rt, "preloads.n")
@@ -895,11 +1211,18 @@ var opKinds = []string{
 	"assoc", "delete-assoc", "find", "batches", "find-joins", "save-fallback", "updates", "create",
 	"save", "create-slice", "firstorcreate", "create-batches", "save-slice", "update-model", "first",
 	"assoc", "save-new", "delete", "update-where", "last", "take", "firstorinit",
+	"connection", "count-find", "update-form", "migrate", "create-map",
 	"rows", "scan", "pluck", "count", "row", "raw", "exec",
 }
 
-func genOp(rt *rapid.T) Op {
+func genOp(rt *rapid.T, txNone, oneUse bool) Op {
 	kind := rapid.SampledFrom(opKinds).Draw(rt, "op")
+	if kind == "connection" && !txNone {
+		kind = "count-find" // Connection takes another pooled connection: only outside transactions
+	}
+	if kind == "rows" && oneUse {
+		kind = "scan" // Rows + ScanRows uses the handle twice
+	}
 	o := Op{Kind: kind}
 	switch kind {
 	case "create":
@@ -909,6 +1232,7 @@ func genOp(rt *rapid.T) Op {
 			o.Upsert = true
 			o.ID = rapid.IntRange(1, 5).Draw(rt, "id")
 		}
+		o.Form = rapid.SampledFrom([]string{"", "", "select", "omit", "omit-associations"}).Draw(rt, "form")
 	case "create-slice", "create-batches":
 		n := rapid.IntRange(2, 3).Draw(rt, "n")
 		o.IDs = make([]int, n)
@@ -916,6 +1240,9 @@ func genOp(rt *rapid.T) Op {
 			o.G = append(o.G, genGraph(rt, fmt.Sprintf("g%d", i)))
 		}
 		o.Full = rapid.Bool().Draw(rt, "full")
+		if kind == "create-slice" && rapid.IntRange(0, 2).Draw(rt, "pointers") == 0 {
+			o.Form = "pointers"
+		}
 		if kind == "create-batches" {
 			o.Batch = rapid.IntRange(1, 3).Draw(rt, "batch")
 		} else if rapid.IntRange(0, 2).Draw(rt, "batchsize") == 0 {
@@ -947,8 +1274,28 @@ func genOp(rt *rapid.T) Op {
 		o.Full = rapid.Bool().Draw(rt, "full")
 	case "update-where":
 		o.IDs = genIDs(rt, "ids", 1, 3)
+		o.Ret = rapid.IntRange(0, 2).Draw(rt, "returning") == 0
+		o.Scoped = rapid.IntRange(0, 2).Draw(rt, "scoped") == 0
+	case "update-form":
+		o.ID = rapid.IntRange(1, 5).Draw(rt, "id")
+		o.Form = rapid.SampledFrom([]string{"map", "map-belongs-to", "update-column", "update-columns", "select-star"}).Draw(rt, "form")
+	case "create-map":
+		o.Form = rapid.SampledFrom([]string{"map", "maps"}).Draw(rt, "form")
 	case "delete":
 		o.ID = rapid.IntRange(1, 5).Draw(rt, "id")
+		o.Form = rapid.SampledFrom([]string{"", "ids", "where"}).Draw(rt, "form")
+		if o.Form != "" {
+			o.IDs = genIDs(rt, "ids", 1, 3)
+		}
+		o.Ret = rapid.IntRange(0, 2).Draw(rt, "returning") == 0
+	case "connection":
+		o.ID = rapid.IntRange(1, 5).Draw(rt, "id")
+		o.Preloads = genPreloads(rt, 0)
+	case "count-find":
+		o.Age = rapid.SampledFrom([]int{1, 33, 90}).Draw(rt, "age")
+		o.Preloads = genPreloads(rt, 0)
+	case "migrate":
+		o.Form = rapid.SampledFrom([]string{"auto-new-table", "auto-add-column", "create-drop"}).Draw(rt, "form")
 	case "delete-assoc":
 		if rapid.Bool().Draw(rt, "all") {
 			o.Sel = []string{clause.Associations}
@@ -956,6 +1303,11 @@ func genOp(rt *rapid.T) Op {
 			perm := rapid.Permutation([]string{"Profile", "Items", "Tags", "Notes", "Company"}).Draw(rt, "sel")
 			o.Sel = append([]string(nil), perm[:rapid.IntRange(1, 3).Draw(rt, "sel.n")]...)
 			sort.Strings(o.Sel)
+			for _, s := range o.Sel {
+				if s == "Items" && rapid.Bool().Draw(rt, "sel.nested") {
+					o.Sel = append(o.Sel, "Items.Parts") // nested: the parts of the deleted items go too
+				}
+			}
 		}
 		o.Unscoped = rapid.IntRange(0, 3).Draw(rt, "unscoped") == 0
 		if rapid.Bool().Draw(rt, "multi") {
@@ -967,11 +1319,15 @@ func genOp(rt *rapid.T) Op {
 		o.Preloads = genPreloads(rt, 1)
 		if rapid.Bool().Draw(rt, "cond") {
 			o.Age = rapid.SampledFrom([]int{20, 33, 50, 90}).Draw(rt, "age")
+			o.Scoped = rapid.IntRange(0, 2).Draw(rt, "scoped") == 0
 		}
+		o.Sub = rapid.SampledFrom([]string{"", "", "same", "foreign"}).Draw(rt, "sub")
 	case "find-joins":
 		o.Kind = "find"
 		perm := rapid.Permutation([]string{"Company", "Profile"}).Draw(rt, "joins")
 		o.Joins = append([]string(nil), perm[:rapid.IntRange(1, 2).Draw(rt, "joins.n")]...)
+		o.InnerJ = rapid.IntRange(0, 2).Draw(rt, "innerjoins") == 0
+		o.JoinCond = !o.InnerJ && o.Joins[0] == "Company" && rapid.IntRange(0, 2).Draw(rt, "joincond") == 0
 		switch rapid.IntRange(0, 2).Draw(rt, "joinpreload") {
 		case 1:
 			o.Preloads = genPreloads(rt, 1)
@@ -1028,24 +1384,44 @@ func genOp(rt *rapid.T) Op {
 		case "clear":
 			o.Unscoped = rapid.IntRange(0, 3).Draw(rt, "unscoped") == 0
 		}
+		if o.Verb != "find" && o.Verb != "count" && rapid.IntRange(0, 2).Draw(rt, "multi") == 0 {
+			// a slice of owners as the model: append / replace take one value per owner
+			o.ID = 0
+			o.IDs = genIDs(rt, "ids", 2, 2)
+			if o.Verb == "append" || o.Verb == "replace" {
+				o.Vals = []int{genRef(rt, "val0", maxID), -1}
+			}
+		}
 	case "batches":
 		o.Batch = rapid.IntRange(1, 3).Draw(rt, "batch")
 		o.Inner = rapid.SampledFrom([]string{"", "count", "save", "assoc", "update"}).Draw(rt, "inner")
+		if rapid.IntRange(0, 2).Draw(rt, "limit") == 0 {
+			o.Limit = rapid.SampledFrom([]int{2, 4}).Draw(rt, "limit.n")
+		}
 		o.Preloads = genPreloads(rt, 0)
 		if rapid.Bool().Draw(rt, "cond") {
 			o.Age = rapid.SampledFrom([]int{20, 33, 50}).Draw(rt, "age")
 		}
-	case "rows", "pluck", "raw":
+	case "rows":
 		o.Age = rapid.SampledFrom([]int{1, 33, 90}).Draw(rt, "age")
+	case "pluck":
+		o.Age = rapid.SampledFrom([]int{1, 33, 90}).Draw(rt, "age")
+		o.Form = rapid.SampledFrom([]string{"", "distinct"}).Draw(rt, "form")
+	case "raw":
+		o.Age = rapid.SampledFrom([]int{1, 33, 90}).Draw(rt, "age")
+		o.Form = rapid.SampledFrom([]string{"", "rows", "row"}).Draw(rt, "form")
 	case "scan":
 		o.Age = rapid.SampledFrom([]int{1, 33, 90}).Draw(rt, "age")
-		o.Form = rapid.SampledFrom([]string{"model", "table"}).Draw(rt, "form")
+		o.Form = rapid.SampledFrom([]string{"model", "table", "find-maps", "take-map", "sub-table"}).Draw(rt, "form")
 	case "count":
 		o.Age = rapid.SampledFrom([]int{1, 33, 90}).Draw(rt, "age")
 		if rapid.Bool().Draw(rt, "join") {
 			o.Joins = []string{"Company"}
 		}
+		o.Form = rapid.SampledFrom([]string{"", "", "group", "distinct"}).Draw(rt, "form")
+		o.Scoped = rapid.IntRange(0, 2).Draw(rt, "scoped") == 0
 	case "firstorcreate", "firstorinit":
+		o.Form = rapid.SampledFrom([]string{"", "model", "conds"}).Draw(rt, "form")
 		o.Found = rapid.Bool().Draw(rt, "found")
 		o.Attrs = rapid.Bool().Draw(rt, "attrs")
 		o.Assign = rapid.Bool().Draw(rt, "assign")
@@ -1059,22 +1435,40 @@ func genOp(rt *rapid.T) Op {
 
 func genCase(rt *rapid.T) Case {
 	c := Case{}
-	c.Bind = rapid.SampledFrom([]string{"withcontext", "withcontext", "session", "session", "rebound-withcontext", "rebound-session"}).Draw(rt, "bind")
+	c.Bind = rapid.SampledFrom([]string{"withcontext", "withcontext", "session", "session", "rebound-withcontext", "rebound-session", "session-initialized", "session-initialized-newdb"}).Draw(rt, "bind")
+	initialized := strings.HasPrefix(c.Bind, "session-initialized")
 	preps := []string{"off", "off", "off", "config", "config", "session-before", "session-after", "session-late"}
 	if strings.HasSuffix(c.Bind, "session") {
 		preps = append(preps, "session-same")
 	}
+	if initialized {
+		// nothing may be derived from the ready instance: only the switches applied before it
+		preps = []string{"off", "config", "session-before"}
+	}
 	c.Prepare = rapid.SampledFrom(preps).Draw(rt, "prepare")
 	c.SkipTx = rapid.IntRange(0, 3).Draw(rt, "skiptx") == 0
-	c.Derive = rapid.SampledFrom([]string{"none", "none", "session", "newdb"}).Draw(rt, "derive")
+	c.Derive = rapid.SampledFrom([]string{"none", "none", "session", "newdb", "skiphooks", "skip-default-tx", "no-nested-tx", "allow-global-update+query-fields"}).Draw(rt, "derive")
 	c.Tx = rapid.SampledFrom([]string{"none", "none", "block", "block", "manual"}).Draw(rt, "tx")
+	if initialized {
+		c.Derive, c.Tx = "none", "none"
+	}
 	if c.Tx != "none" {
 		c.Depth = rapid.IntRange(1, 2).Draw(rt, "depth")
 		for i := 0; i < c.Depth; i++ {
-			c.Fail = append(c.Fail, rapid.IntRange(0, 3).Draw(rt, "fail") == 0)
+			fail := rapid.IntRange(0, 3).Draw(rt, "fail") == 0
+			c.Fail = append(c.Fail, fail)
 			c.After = append(c.After, rapid.IntRange(0, 2).Draw(rt, "after") == 0)
+			c.Panic = append(c.Panic, fail && !(c.Tx == "manual" && i == 0) && rapid.IntRange(0, 2).Draw(rt, "panic") == 0)
+		}
+		c.TxOpts = rapid.IntRange(0, 3).Draw(rt, "txopts") == 0
+		if c.Tx == "manual" {
+			c.Savepoint = rapid.SampledFrom([]string{"", "", "keep", "rollback"}).Draw(rt, "savepoint")
 		}
 	}
+	c.NoReturning = rapid.IntRange(0, 3).Draw(rt, "noreturning") == 0
+	c.Cfg = rapid.SampledFrom([]string{"", "", "", "no-nested-tx", "full-save", "translate-error", "query-fields", "create-batch-size"}).Draw(rt, "cfg")
+	c.Plugin = rapid.IntRange(0, 4).Draw(rt, "plugin") == 0
+	c.JoinModel = rapid.IntRange(0, 3).Draw(rt, "joinmodel") == 0
 	if c.Prepare != "off" {
 		c.Warm = rapid.Bool().Draw(rt, "warm")
 	}
@@ -1085,7 +1479,7 @@ func genCase(rt *rapid.T) Case {
 	if c.Hook != "" {
 		c.HookAt = rapid.SampledFrom([]string{"before", "after", "all"}).Draw(rt, "hookat")
 	}
-	if rapid.Bool().Draw(rt, "fork") {
+	if !initialized && rapid.Bool().Draw(rt, "fork") {
 		f := &Fork{}
 		f.At = rapid.SampledFrom([]string{"bound", "inner"}).Draw(rt, "fork.at")
 		f.Ctx = rapid.SampledFrom([]string{"own", "own-dead", "inherit"}).Draw(rt, "fork.ctx")
@@ -1103,11 +1497,11 @@ func genCase(rt *rapid.T) Case {
 		c.Fork = f
 	}
 	n := 1
-	if rapid.IntRange(0, 3).Draw(rt, "twoops") == 0 {
+	if !initialized && rapid.IntRange(0, 3).Draw(rt, "twoops") == 0 {
 		n = 2
 	}
 	for i := 0; i < n; i++ {
-		c.Ops = append(c.Ops, genOp(rt))
+		c.Ops = append(c.Ops, genOp(rt, c.Tx == "none", initialized))
 	}
 	return c
 }
@@ -1152,6 +1546,31 @@ func classes(c Case) []string {
 	} else {
 		set["fork:none"] = true
 	}
+	if c.NoReturning {
+		set["dialector:no-returning"] = true
+	} else {
+		set["dialector:returning"] = true
+	}
+	if c.Cfg != "" {
+		set["config:"+c.Cfg] = true
+	}
+	if c.Plugin {
+		set["plugin-callbacks"] = true
+	}
+	if c.JoinModel {
+		set["join-model:setup-join-table"] = true
+	}
+	if c.TxOpts {
+		set["tx:with-options"] = true
+	}
+	if c.Savepoint != "" {
+		set["tx:explicit-savepoint-"+c.Savepoint] = true
+	}
+	for _, p := range c.Panic {
+		if p {
+			set["tx:block-panics"] = true
+		}
+	}
 	if c.Hook != "" {
 		set["hook:"+c.Hook+":"+c.HookAt] = true
 	} else {
@@ -1168,6 +1587,46 @@ func classes(c Case) []string {
 			k += "-" + o.Form
 		}
 		set["op:"+k] = true
+		switch o.Kind {
+		case "create", "create-slice", "create-map", "update-form", "delete", "migrate", "scan", "pluck", "count", "raw", "firstorcreate", "firstorinit":
+			if o.Form != "" && o.Form != "fallback" && o.Form != "new" {
+				set["form:"+o.Kind+":"+o.Form] = true
+			}
+		}
+		if o.Ret {
+			set["clause:returning-on-"+o.Kind] = true
+		}
+		if o.Scoped {
+			set["chain:scopes"] = true
+		}
+		if o.Sub != "" {
+			set["handle-as-argument:subquery-"+o.Sub] = true
+		}
+		if o.Form == "sub-table" {
+			set["handle-as-argument:table-subquery-foreign"] = true
+		}
+		if o.JoinCond {
+			set["handle-as-argument:join-condition-foreign"] = true
+		}
+		if o.InnerJ {
+			set["joins:inner"] = true
+		}
+		if o.Limit > 0 {
+			set["batches:with-limit"] = true
+		}
+		if o.Kind == "assoc" && len(o.IDs) > 0 {
+			set["assoc:slice-model-"+o.Verb] = true
+		}
+		for _, p := range o.Preloads {
+			if p.Path == "Contact.Region" {
+				set["preload:embedded-relation"] = true
+			}
+		}
+		for _, s := range o.Sel {
+			if s == "Items.Parts" {
+				set["delete:select-nested-association"] = true
+			}
+		}
 		if o.Full {
 			set["write:full-save-associations"] = true
 		}
